@@ -46,6 +46,27 @@ func genC20(p *Plan, r *RNG) {
 	}
 	n := r.Range(2, 20)
 	span := max - min + 1
+	if r.Chance(1, 8) {
+		// one port, three owners in a row, and the first owner's Close called once more while the
+		// second holds the port: the third request fails (or gets another port), it never shares
+		p.Flavor += "+close-twice"
+		network := r.Pick(nets)
+		kindOp := "gen_pc"
+		if network[:3] == "tcp" {
+			kindOp = "gen_ln"
+		}
+		port := r.PickInt([]int{3000, 50000, 65535})
+		if kind >= 2 && min == max {
+			port = 0 // the range has one port: every allocation gets it or fails
+		}
+		alloc := Op{Kind: kindOp, At: gap(0), A: OpArgs{S: network, N: port}}
+		p.Ops = append(p.Ops, alloc, Op{Kind: "gen_close", At: gap(0), A: OpArgs{N: 0}}, alloc,
+			Op{Kind: "gen_reclose", At: gap(0), A: OpArgs{N: 0}}, alloc)
+		if r.Chance(1, 2) {
+			p.Ops = append(p.Ops, Op{Kind: "gen_close", At: gap(0), A: OpArgs{N: 0}}, Op{Kind: "gen_reclose", At: gap(0), A: OpArgs{N: r.Intn(2)}}, alloc, alloc)
+		}
+		n = r.Range(0, 6)
+	}
 	for i := 0; i < n; i++ {
 		network := r.Pick(nets)
 		switch w := r.Intn(100); {
@@ -76,6 +97,8 @@ func genC20(p *Plan, r *RNG) {
 			p.Ops = append(p.Ops, Op{Kind: "occupy", At: gap(0), A: OpArgs{S: network, N: port}})
 		case w < 40:
 			p.Ops = append(p.Ops, Op{Kind: "gen_close", At: gap(0), A: OpArgs{N: r.Intn(8)}})
+		case w < 45:
+			p.Ops = append(p.Ops, Op{Kind: "gen_reclose", At: gap(0), A: OpArgs{N: r.Intn(8)}})
 		default:
 			kindOp := "gen_pc"
 			if network[:3] == "tcp" {
